@@ -109,6 +109,9 @@ fn main() {
             println!("feat fin={} weak={} clean={} auto={} debug={}", f.0 as u8, f.1 as u8, f.2 as u8, f.3 as u8, cfg!(debug_assertions) as u8);
         }
         "run" => {
+            // measured once, on a scratch thread
+            let ms = std::thread::spawn(interp::probe_map_size).join().unwrap_or(0);
+            alloc::MAP_BOX_SIZE.store(ms, std::sync::atomic::Ordering::Relaxed);
             let stdin = std::io::stdin();
             let mut out: Vec<String> = Vec::new();
             let mut cur: Option<ProgramSrc> = None;
